@@ -801,7 +801,8 @@ def _apply_cop(a, name: str, is_set: bool, op, objs) -> None:
 
     k = op[0]
     mk = (lambda xs: set(xs)) if is_set else (lambda xs: list(xs))
-    vals = [objs[int(x)] for x in op[1:]] if k not in ("insert", "setitem", "assignView", "setslice") else None
+    vals = [objs[int(x)] for x in op[1:]] if k not in ("insert", "setitem", "assignView", "setslice", "pop", "delitem",
+                                                      "delslice") else None
     if k == "append":
         getattr(a, name).append(vals[0])
     elif k == "add":
@@ -824,6 +825,23 @@ def _apply_cop(a, name: str, is_set: bool, op, objs) -> None:
         else:
             value = (x for x in xs) if len(xs) % 2 else iter(xs)
         getattr(a, name)[lo:hi] = value
+    elif k == "remove":
+        getattr(a, name).remove(vals[0])
+    elif k == "discard":
+        getattr(a, name).discard(vals[0])
+    elif k == "pop":
+        if len(op) > 1:
+            getattr(a, name).pop(int(op[1]))
+        else:
+            getattr(a, name).pop()
+    elif k == "delitem":
+        del getattr(a, name)[int(op[1])]
+    elif k == "delslice":
+        lo = None if op[1] == "-" else int(op[1])
+        hi = None if op[2] == "-" else int(op[2])
+        del getattr(a, name)[lo:hi]
+    elif k == "clear":
+        getattr(a, name).clear()
     elif k == "assign":
         setattr(a, name, mk(vals))
     elif k == "assignSelf":
@@ -878,6 +896,8 @@ def run_c16_line(line: str) -> str:
         info = schema(field_of(items, "schema")[0])
         sg = _fresh_graph()
         objs_spec = field_of(items, "objs")
+        if s[0] == "hc":
+            return _run_hc(info, sg, items, objs_spec)
         f = int(field_of(items, "field")[0])
         name = info.fields[f][1]
         is_set = info.kinds[f] == "set"
@@ -923,6 +943,55 @@ def run_c16_line(line: str) -> str:
         return "exc:RecursionError"
     except Exception as e:  # noqa: BLE001
         return "exc:" + type(e).__name__
+
+
+def construct_with(info: SchemaInfo, c: int, i: int, kwargs: Dict[str, Any]):
+    """a constructor call that assigns several managed fields at once (classes without a role taker)"""
+    if info.tag == "U":
+        return info.classes[c](name=f"{'p' if c == 0 else 'c'}{i}", **kwargs)
+    return info.classes[c](i, **kwargs)
+
+
+def _run_hc(info: SchemaInfo, sg, items, objs_spec) -> str:
+    """C16 family `hc`: a history in the C15 grammar (set / add / assign through the real descriptors) in which some
+    instances are created mid-history by a constructor call with keyword arguments for several managed fields
+    `(ctor o (set f t) (assign f x…) (default f)…)`. No field is READ between the writes (a read binds the owner
+    of a monitored container); observation at the end: relation triples and the contents of every managed field."""
+    ops = field_of(items, "ops")
+    late = {int(op[1]) for op in ops if op[0] == "ctor"}
+    objs = build_world(info, objs_spec, late)
+    classes_of = [int(c) for c, _ in objs_spec]
+    for op in ops:
+        if op[0] == "ctor":
+            o = int(op[1])
+            c = classes_of[o]
+            kwargs: Dict[str, Any] = {}
+            for it in op[2:]:
+                f = int(it[1])
+                if it[0] == "set":
+                    kwargs[info.attr(f, c)] = objs[int(it[2])]
+                elif it[0] == "assign":
+                    vals = [objs[int(x)] for x in it[2:]]
+                    kwargs[info.attr(f, c)] = set(vals) if info.kinds[f] == "set" else list(vals)
+                elif it[0] != "default":
+                    return "bad-op"
+            objs[o] = construct_with(info, c, o, kwargs)
+            continue
+        kind, f, src = op[0], int(op[1]), objs[int(op[2])]
+        name = info.attr(f, classes_of[int(op[2])])
+        if kind == "set":
+            setattr(src, name, objs[int(op[3])])
+        elif kind == "add":
+            c = getattr(src, name)
+            (c.add if info.kinds[f] == "set" else c.append)(objs[int(op[3])])
+        elif kind == "assign":
+            vals = [objs[int(x)] for x in op[3:]]
+            setattr(src, name, tuple(vals) if info.kinds[f] == "set" else list(vals))
+        else:
+            return "bad-op"
+    out = observe_relations(info, sg, objs) + "|" + observe_fields(info, objs, classes_of)
+    del objs
+    return out
 
 
 def _run_two(info, sg, items, objs_spec, f, name, is_set) -> str:
@@ -1013,7 +1082,15 @@ def _describe(tag: str):
 
     use_repo_sources()
     info = schema(tag)
+    from dataclasses import fields as dc_fields
+    decl_order = {}
+    for c, cls in enumerate(info.classes):
+        names = [x.name for x in dc_fields(cls)]
+        fs = [f for f in range(len(info.fields)) if info.applies(f, c)]
+        decl_order[c] = sorted(fs, key=lambda f: names.index(info.attr(f, c)))
     return {"sexp": info.sexp(), "kinds": info.kinds, "fields": info.fields, "targets": info.targets,
+            # the managed fields of each class in the order the dataclass `__init__` assigns them
+            "decl_order": decl_order,
             "role_cls": list(info.role_attr.keys()), "nclasses": len(info.classes),
             "applies": {f: [c for c in range(len(info.classes)) if info.applies(f, c)]
                         for f in range(len(info.fields))}}
